@@ -76,6 +76,7 @@ class Path:
         self.panic = None
         self.blocks = []
         self.loops = []
+        self.subs = []
 
     def clone(self):
         p = Path()
@@ -85,6 +86,7 @@ class Path:
         p.asserts = list(self.asserts)
         p.blocks = list(self.blocks)
         p.loops = list(self.loops)
+        p.subs = list(self.subs)
         return p
 
 
@@ -646,7 +648,11 @@ class Frame:
         if k == "use":
             return self.operand(rv["op"])
         if k == "binop":
-            return self.binop(rv["op"], self.operand(rv["a"]), self.operand(rv["b"]), rv.get("aty"))
+            x, y = self.operand(rv["a"]), self.operand(rv["b"])
+            if rv["op"] in ("Sub", "SubWithOverflow", "SubUnchecked") and rv.get("aty") in UNSIGNED and not (is_int(x) and is_int(y)) and path is not None:
+                # an unsigned subtraction: it panics (overflow checks) or wraps unless x >= y - the caller of the analysis decides
+                path.subs.append((x, y, rv.get("aty"), rv.get("line")))
+            return self.binop(rv["op"], x, y, rv.get("aty"))
         if k == "unop":
             a = self.operand(rv["a"])
             op = rv["op"]
@@ -953,6 +959,7 @@ class Analysis:
                 for c in o.calls:
                     p2.calls.append(c)
                 p2.asserts += o.asserts
+                p2.subs += getattr(o, "subs", [])
                 p2.loops += [("inl", tpath, h) for h in o.loops]
                 f2 = frame.clone()
                 # the callee's environment stays addressable (its locals may occur in returned terms)
@@ -1395,6 +1402,7 @@ def _unref(frame, a):
 INT_OPS = {"Add": "Add", "Sub": "Sub", "Mul": "Mul", "Div": "Div", "Rem": "Rem", "Shl": "Shl", "Shr": "Shr",
            "BitAnd": "BitAnd", "BitOr": "BitOr", "BitXor": "BitXor"}
 INT_TYS = set(MASKS) - {"bool", "char"}
+UNSIGNED = {"usize", "u8", "u16", "u32", "u64", "u128"}
 
 
 def std_model(an, frame, ev, path):
